@@ -106,7 +106,7 @@ def check(ctx, replay=None):
         cov["evaluations"] += s["probes"]
         cov["distinct_nontrivial"] += s["distinct_nontrivial"]
         cov["traces_validated_against_impl"] += s["children"]
-        cov.setdefault("kernel_replays", []).append({k: s[k] for k in ("scope", "cases", "children", "probes", "fatal_probes", "skipped_children")})
+        cov.setdefault("kernel_replays", []).append({k: s[k] for k in ("scope", "cases", "children", "probes", "fatal_probes", "skipped_children", "inconclusive_children")})
         if s["skipped_children"] > s["children"] // 4:
             raise vlib.Machinery("%d of %d children could not be run" % (s["skipped_children"], s["children"]))
         for x in s["samples"] or []:
@@ -121,5 +121,7 @@ def check(ctx, replay=None):
                    "LoadFilter with flags in {0,tsync,log,tsync|log} and NoNewPrivs on/off; raw probes with 64-bit registers, expected errno/ENOSYS/SIGSYS "
                    "from the specification's Decide; hook H2 compares the installed sock_filter array and flags with the compiled program; "
                    "non-trivial = the policy's probes receive at least two different decisions")
-    ctx.assumptions += ["host kernel only (x86_64, little endian); x32 and foreign-architecture events cannot be issued natively and are left to C04",
+    ctx.assumptions += ["policies whose default action is not allow/log also deny the Go runtime's own system calls: they are installed without thread-sync and a child that its own runtime "
+                        "brings down before all probes are answered is counted as inconclusive, never as a violation",
+                        "host kernel only (x86_64, little endian); x32 and foreign-architecture events cannot be issued natively and are left to C04",
                         "trace / kill_thread / user_notif actions are not observed on the kernel"]
